@@ -80,6 +80,9 @@ func runC01(c *Ctx) {
 	} else {
 		c.info("R9", "filesystem.heartBeat/absent", "-", "no heartBeat function (the heartbeat is written elsewhere)")
 	}
+	c.rule("R11", "every beat of the heartbeat (re)creates the heartbeat file: a creating write lies in the loop, so that a creation that failed once, or a file that vanished, is repaired one period later", 1)
+	c.rule("R12", "the instant written at a beat is read from the clock at that beat (time.Now() evaluated in the loop), not carried over or computed from the previous beat", 1)
+	c.heartBeatEveryBeat("R11", "R12")
 
 	// R10: the verdict 'stale' (and with it the take-over of a lock) rests on listings and stats of the lock directory. A helper on
 	// that path that loses a failure — an error overwritten by the outcome of the next step, a failing side that returns
@@ -524,4 +527,58 @@ func (c *Ctx) staleVerdictErrorsTravel(rule string) {
 		c.errDropRule(rule, f)
 	}
 	c.Extra["functions_reached_by_the_staleness_verdict"] = len(fns)
+}
+
+// heartBeatEveryBeat: two obligations on the loop of the heartbeat goroutine, shared by C01 and C17.
+//   - create: every beat (re)creates the heartbeat file — a creating write (WriteFile, CreateFile, OpenFile, Touch) lies in
+//     the loop. A beat that only sets times cannot repair a file whose first creation failed (EMFILE, EIO) or which vanished:
+//     the goroutine keeps running, its Chtimes answers 'not found', nobody looks, and the lock of a live holder goes stale.
+//   - clock: the instant written at a beat is read from the clock at that beat — every time operand of Chtimes derives from
+//     a time.Now() evaluated inside the loop, not from a value carried from one iteration to the next (a computed schedule
+//     drifts from the observers' clocks by every delay of every beat and never catches up).
+func (c *Ctx) heartBeatEveryBeat(ruleCreate, ruleClock string) {
+	hb := c.fnOpt(fsPkgRel, "heartBeat")
+	if hb == nil {
+		c.info(ruleCreate, "filesystem.heartBeat/absent", "-", "no heartBeat function (the heartbeat is written elsewhere)")
+		return
+	}
+	c.FuncsSeen[fname(hb)] = true
+	creating, stamping := 0, 0
+	var stamps []*ssa.Call
+	allInstrs(hb, func(in ssa.Instruction) {
+		cl, ok := in.(*ssa.Call)
+		if !ok || !cl.Call.IsInvoke() {
+			return
+		}
+		switch cl.Call.Method.Name() {
+		case "WriteFile", "WriteFileWithContext", "WriteToFile", "CreateFile", "OpenFile", "Touch":
+			if inLoop(cl) {
+				creating++
+			}
+		case "Chtimes":
+			if inLoop(cl) {
+				stamping++
+				stamps = append(stamps, cl)
+			}
+		}
+	})
+	c.check(creating > 0, ruleCreate, fname(hb)+"/every-beat-creates-the-file", c.pos(hb.Pos()), "a creating write of the heartbeat file lies in the loop",
+		"no beat (re)creates the heartbeat file: when its first creation fails (too many open files, an I/O error) or the file disappears, every later beat only sets the times of a file that is not there, ignores the answer, and the lock of a holder that is alive goes stale and is taken over")
+	bad := ""
+	for _, st := range stamps {
+		for _, a := range st.Call.Args {
+			if !strings.HasSuffix(a.Type().String(), "time.Time") {
+				continue
+			}
+			for _, l := range sources(a, deriveOpts{}) {
+				cl, ok := l.(*ssa.Call)
+				if ok && calleeFull(&cl.Call) == "time.Now" && inLoop(cl) {
+					continue
+				}
+				bad = c.ipos(st) + " (operand from " + c.pos(l.Pos()) + ")"
+			}
+		}
+	}
+	c.check(stamping == 0 || bad == "", ruleClock, fname(hb)+"/every-beat-reads-the-clock", c.pos(hb.Pos()), "the times written at a beat come from time.Now() evaluated in the loop",
+		"the time written at "+bad+" is not read from the clock at that beat (it is carried from one iteration to the next, or computed): observers compare it with their own clock, every delay of a beat accumulates, and after one stall of the disk the live lock is reported stale for ever")
 }
